@@ -782,6 +782,24 @@ func (fr *frame) evalUnary(p *Path, e *ast.UnaryExpr) []PV {
 	return out
 }
 
+// toBV64: the 64-bit vector of an Int term; (sbv2int X) -> X, numeral -> literal, otherwise int2sbv
+func toBV64(t Term) string {
+	if strings.HasPrefix(t.S, "(sbv2int ") {
+		return t.S[9 : len(t.S)-1]
+	}
+	if n, ok := t.C.(int64); ok {
+		return fmt.Sprintf("#x%016x", uint64(n))
+	}
+	return "(int2sbv " + t.S + ")"
+}
+
+// bvSide: one operand is a machine integer kept on the bit-vector level and the other a numeral
+func bvSide(a, b Term) bool {
+	_, ca := a.C.(int64)
+	_, cb := b.C.(int64)
+	return (strings.HasPrefix(a.S, "(sbv2int ") && cb) || (strings.HasPrefix(b.S, "(sbv2int ") && ca)
+}
+
 func fpBin(op string, a, b Term) Term {
 	return Term{S: "(" + op + " RNE " + a.S + " " + b.S + ")", Sort: SF64}
 }
@@ -835,8 +853,14 @@ func (c *Ctx) binop0(op token.Token, a, b Term, pos token.Pos) Value {
 		case token.MUL:
 			return tIntBin("*", a, b)
 		case token.EQL:
+			if bvSide(a, b) {
+				return Term{S: "(= " + toBV64(a) + " " + toBV64(b) + ")", Sort: SBool}
+			}
 			return tEq(a, b)
 		case token.NEQ:
+			if bvSide(a, b) {
+				return Term{S: "(not (= " + toBV64(a) + " " + toBV64(b) + "))", Sort: SBool}
+			}
 			return tNot(tEq(a, b))
 		case token.LSS:
 			return tIntCmp("<", a, b)
@@ -853,7 +877,7 @@ func (c *Ctx) binop0(op token.Token, a, b Term, pos token.Pos) Value {
 					return mkInt(x % y)
 				}
 			}
-			return Term{S: fmt.Sprintf("(sbv2int (bvsrem (int2sbv %s) (int2sbv %s)))", a.S, b.S), Sort: SInt}
+			return Term{S: fmt.Sprintf("(sbv2int (bvsrem %s %s))", toBV64(a), toBV64(b)), Sort: SInt}
 		}
 	case SStr:
 		switch op {
